@@ -23,22 +23,27 @@ INTERNAL = ["RunCb"]
 
 def run(rep, work, tier, seed):
     if tier == "quick":
-        mc = dict(NTasks=3, N=4, MaxOps=7, MaxRec=0, MaxT=1, MTypes=["Cat"], Bug="none")
-        conf = dict(NTasks=2, N=3, MaxOps=6, MaxRec=0, MaxT=1, MTypes=["Cat"], Bug="none")
+        mc = dict(NTasks=3, N=4, MaxOps=7, MaxRec=0, MaxT=1, MTypes=["Cat"], Kinds=["s", "a"], Bug="none")
+        conf = dict(NTasks=2, N=3, MaxOps=6, MaxRec=0, MaxT=1, MTypes=["Cat"], Kinds=["s", "a"], Bug="none")
     else:
-        mc = dict(NTasks=3, N=5, MaxOps=10, MaxRec=0, MaxT=1, MTypes=["Cat"], Bug="none")
-        conf = dict(NTasks=3, N=4, MaxOps=7, MaxRec=0, MaxT=1, MTypes=["Cat"], Bug="none")
+        mc = dict(NTasks=3, N=5, MaxOps=10, MaxRec=0, MaxT=1, MTypes=["Cat"], Kinds=["s", "a"], Bug="none")
+        conf = dict(NTasks=3, N=4, MaxOps=7, MaxRec=0, MaxT=1, MTypes=["Cat"], Kinds=["s", "a"], Bug="none")
     rep.extra["constants"] = dict(model=mc, conformance=conf)
     leg_m(rep, work, SPEC, f"mc_{tier}",
           cfg_text(mc, spec="Spec", invariants=INVS, properties=PROPS + ["EventuallyCalled"]),
           expect_actions=["Open", "Close", "RunCb", "Start", "End", "Tick", "Drain"], timeout=3000)
     if tier == "thorough":
-        small = dict(NTasks=2, N=3, MaxOps=6, MaxRec=0, MaxT=1, MTypes=["Cat"])
+        small = dict(NTasks=2, N=3, MaxOps=6, MaxRec=0, MaxT=1, MTypes=["Cat"], Kinds=["s", "a"])
         leg_mutant(rep, work, SPEC, "mutant_late_child", cfg_text(dict(small, Bug="late_child"), invariants=INVS),
                    ["CbAfterSubtree", "ExitNeverFails", "CbAtMostOnce", "CompletionIffSubtreeLeft"])
         leg_mutant(rep, work, SPEC, "mutant_no_parent_notify",
                    cfg_text(dict(small, Bug="no_parent_notify"), invariants=INVS), ["CompletionIffSubtreeLeft"])
     leg_r(rep, work, SPEC, f"conf_{tier}", cfg_text(conf, invariants=INVS), lambda: MetricsDriver(["Cat"]),
+          internal=INTERNAL)
+    # three tasks sharing one inherited scope (children in plain tasks that outlive it, opened while an earlier
+    # child is still open): needs 7-8 operations, explored on sync scopes only to keep the graph small
+    wide = dict(NTasks=3, N=3, MaxOps=7 if tier == "quick" else 8, MaxRec=0, MaxT=0, MTypes=["Cat"], Kinds=["s"], Bug="none")
+    leg_r(rep, work, SPEC, f"conf_wide_{tier}", cfg_text(wide, invariants=INVS), lambda: MetricsDriver(["Cat"]),
           internal=INTERNAL)
     rep.assumptions += [
         "scopes are created and entered at once (a scope object that is constructed and never entered keeps its "
